@@ -671,6 +671,26 @@ def call_layer(cmd, g, kind, page_g, l):
     return docs.outcome(run)
 
 
+def regression_background_round_zero_size():
+    """Fixed finding background-round-zero-size (5dce5fa): `background-repeat: round` with a zero-wide / high
+    tile (background-size: 0 auto, 10px 0, a percentage of an empty area) raised ZeroDivisionError.
+    -> regression cases through the ordinary `bglayer` / `bgdraw` lines."""
+    g = dict(zip(GEOM_FIELDS, [Q(0)] * 14 + [Q(100), Q(50)]))
+    empty = dict(zip(GEOM_FIELDS, [Q(0)] * 14 + [Q(0), Q(50)]))
+    cases = []
+    for geom, size, repeat in ((g, (('px', Q(0)), 'auto'), ('round', 'repeat')),
+                               (g, (('px', Q(10)), ('px', Q(0))), ('repeat', 'round')),
+                               (g, (('px', Q(0)), ('px', Q(0))), ('round', 'round')),
+                               (empty, (('%', Q(50)), 'auto'), ('round', 'round'))):
+        layer = {'image': (Q(4), Q(4), Q(1)), 'size': size, 'clip': 'border-box', 'origin': 'padding-box',
+                 'repeat': repeat, 'position': (False, ('%', Q(0)), False, ('%', Q(0))), 'fixed': False}
+        for cmd in ('bglayer', 'bgdraw'):
+            cases.append((layer_line(cmd, geom, 'plain', g, layer), call_layer(cmd, geom, 'plain', g, layer),
+                          {'fn': 'layout_background_layer', 'regression': 'background-round-zero-size'}, True,
+                          ['regression:background-round-zero-size']))
+    return cases
+
+
 def gen_cell(rng):
     return (Q(rng.randint(0, 200)), Q(rng.randint(0, 120), rng.choice([1, 2])), Q(rng.randint(0, 80), rng.choice([1, 2])))
 
@@ -824,7 +844,21 @@ def dedupe_out(draws, pages):
                 if isinstance(target, Stream):
                     walk(pdf.objects[_ref_number(target.extra['Resources'])])
     walk(resources)
-    return base, f'objs ({" ".join(objs)}) refs ({" ".join(refs)})'
+
+    def tree(res):
+        """The Resources dictionary as `showTree` prints it: names in dictionary order, groups / patterns nested."""
+        parts = []
+        for which in ('XObject', 'Pattern'):
+            items = []
+            for key, ref in res[which].items():
+                target = pdf.objects[_ref_number(ref)]
+                if isinstance(target, Stream):
+                    items.append(f'({key} {tree(pdf.objects[_ref_number(target.extra["Resources"])])})')
+                else:
+                    items.append(key)
+            parts.append('(' + ' '.join(items) + ')')
+        return ' '.join(parts)
+    return base, f'objs ({" ".join(objs)}) refs ({" ".join(refs)}) tree {tree(resources)}'
 
 
 def case_dedupe(rng, adversarial):
